@@ -10,6 +10,7 @@ import (
 	"github.com/vapourismo/knx-go/knx/cemi"
 	"github.com/vapourismo/knx-go/knx/knxnet"
 	"github.com/vapourismo/knx-go/verifmc/mc"
+	"github.com/vapourismo/knx-go/verifmc/vnet"
 	"verifh/harness/fakesock"
 	"verifh/harness/h"
 )
@@ -416,4 +417,81 @@ func init() {
 	// unbounded preemptions for the smallest burst (classic context bounding with P=2, no delay bound)
 	register("thorough", &h.Scenario{Name: "C17-tunnel-burst2-p2", Prop: "C17", P: 2, F: 0, D: 0, Run: c17Tunnel(2), Check: c17Oracle("C17", 2, "tunnel.go:", true), MaxExe: 3000000})
 	register("thorough", &h.Scenario{Name: "C17-grouplayer-isolated-burst3-p2", Prop: "C17", P: 2, F: 0, D: 0, Run: c17GroupLayer(3), Check: c17Oracle("C17", 3, "", false), MaxExe: 3000000})
+}
+
+// c17FullStack: the router client (or a TCP tunnel) on the real socket layer (virtual connection);
+// between the telegrams the peer sends frames the receiver must drop (cut short, wrong version, a
+// cEMI body that is too short). What the application reads must be the telegrams, each once, in
+// order - whatever the socket layer does with the frames it rejects.
+func c17FullStack(router bool) func() {
+	return func() {
+		const n = 3
+		w := vnet.Reset()
+		var ep *vnet.Endpoint
+		w.OnCreate = func(e *vnet.Endpoint) {
+			ep = e
+			e.OnWrite = func(wr vnet.WriteRec) {
+				var v knxnet.Service
+				if _, err := knxnet.Unpack(wr.Data, &v); err != nil {
+					return
+				}
+				if _, ok := v.(*knxnet.ConnReq); ok {
+					e.Inject(pack(&knxnet.ConnRes{Channel: 7, Status: 0, Control: knxnet.HostInfo{Protocol: knxnet.TCP4}}), nil)
+				}
+			}
+		}
+		var recv func() (interface{}, bool)
+		var closeFn func()
+		if router {
+			r, err := knx.NewRouter("224.0.23.12:3671", knx.RouterConfig{RetainCount: 2})
+			if err != nil {
+				mc.Log(Note("router failed: " + err.Error()))
+				return
+			}
+			recv, closeFn = func() (interface{}, bool) { m, ok := r.Inbound().Recv2(); return m, ok }, r.Close
+		} else {
+			cfg := TCfg(100, 350, 100000000)
+			cfg.UseTCP = true
+			t, err := knx.NewTunnel("192.0.2.99:3671", knxnet.TunnelLayerData, cfg)
+			if err != nil {
+				mc.Log(Note("connect failed: " + err.Error()))
+				return
+			}
+			recv, closeFn = func() (interface{}, bool) { m, ok := t.Inbound().Recv2(); return m, ok }, t.Close
+		}
+		junk := [][]byte{
+			{6, 0x10, 0x05, 0x30, 0, 9, 0x29, 0, 0xBC},                                         // routing indication whose cEMI body is too short
+			{6, 0x10, 0x04, 0x20, 0, 10, 4, 7, 0, 0},                                           // tunnelling request without a cEMI body
+			{6, 0x10, 0x05, 0x30, 0, 17, 0x29, 3, 1, 2, 3, 0xBC, 0xE0, 0x11, 0x01, 0x0A, 0x03}, // additional info + truncated L_Data
+		}
+		for i := 0; i < n; i++ {
+			if k := mc.Choose(len(junk)+1, mc.Free); k > 0 {
+				ep.Inject(junk[k-1], nil)
+			}
+			if router {
+				ep.Inject(pack(&knxnet.RoutingInd{Payload: Msg(i)}), nil)
+			} else {
+				ep.Inject(pack(&knxnet.TunnelReq{Channel: 7, SeqNumber: uint8(i), Payload: Msg(i)}), nil)
+			}
+		}
+		mc.Sleep(1 * ms)
+		c17Consumer(n, recv, "fullstack")
+		// anything beyond the three telegrams?
+		mc.Sleep(5 * ms)
+		extra := mc.NewChan[int](1, "c17.extra")
+		mc.GoEnv("extra-reader", func() {
+			if m, ok := recv(); ok {
+				mc.Log(Rx{ID: MsgID(m), From: "fullstack-extra"})
+			}
+			extra.Send(1)
+		})
+		mc.Sleep(5 * ms)
+		closeFn()
+		extra.Recv()
+	}
+}
+
+func init() {
+	register("both", &h.Scenario{Name: "C17-fullstack-router-rejected-frames-between-telegrams", Prop: "C17", P: 0, F: 0, D: -1, Run: c17FullStack(true), Check: c17Oracle("C17", 3, "router.go:", false)})
+	register("both", &h.Scenario{Name: "C17-fullstack-tcp-tunnel-rejected-frames-between-telegrams", Prop: "C17", P: 0, F: 0, D: -1, Run: c17FullStack(false), Check: c17Oracle("C17", 3, "tunnel.go:", false)})
 }
